@@ -471,7 +471,7 @@ def report():
     for m in caught_nofi:
         tri.setdefault(m["id"], "reported without a failing input")
     out = ["# Systematic mutation scan" + (" (sample " + os.environ["MUTSCAN_SAMPLE"] + ")" if os.environ.get("MUTSCAN_SAMPLE") else ""), "",
-           "(run at /repo c8819c2, before the pc_joint fix e180fef: line numbers refer to that commit)", "",
+           os.environ.get("MUTSCAN_RAN_AT", "(run at /repo c8819c2, before the pc_joint fix e180fef: line numbers refer to that commit)"), "",
            "`tools/mutscan.py`: standard operators (comparison / arithmetic / Boolean swaps, constants ±1, negated conditions, dropped keyword",
            "arguments, deleted statements) applied to the functions the properties are anchored in and the helpers they call; a mutant counts only",
            "if `import pyrepseq` works and the baseline test outcomes are unchanged; each survivor is run against the quick checks of the",
